@@ -46,6 +46,13 @@ def adversarial(rnd):
         add(f"&va = {big}; va", "long-sum-in-computed", ("value", str(n)))
         add(f"x = `{{% {big} %}}`; x", "long-sum-in-template", ("value", str(n)))
         add(f"func g0() {{ func g1() {{ {big} }}; g1() }}; g0()", "long-sum-in-nested-function", ("value", str(n)))
+    # printing inside an evaluation is work too: a value with shared sub-structure (each step a handful of operations, the tree
+    # unfolding doubling) must print in time proportional to the object graph, not to the unfolding
+    for k in (30, 60):
+        for first, stepf in (("a=[1]", "a=[a,a]"), ("a={'x':1}", "a={'x':a,'y':a}")):
+            build = first + "; " + "; ".join([stepf] * k)
+            for look in ("toStr(a).len() < 100000", "x = `{a}`; x.len() < 100000", "repr(a).len() < 100000", "[a, a] == [a, a]"):
+                add(build + "; " + look, "shared-structure-print", ("value", "1"))
     for n in (19, 20, 21, 22, 30):
         add("if 1 {" * n + "5" + "}" * n, "nested-if", "any")
         t = "5"
